@@ -65,7 +65,7 @@ func genSealRoundtrip(h *H) {
 					} else if s.sender == nil {
 						s.sender = h.randBoxSk()
 					}
-					msg := h.rng.Bytes(h.pickLen(cnt % 14))
+					msg := h.content(h.pickLen(cnt % 14))
 					cnt++
 					h.tag("rcpts:" + strconv.Itoa(nr))
 					h.Run(sealCase(s, [][]byte{msg}, sealRng(h.rng, nr), true))
@@ -84,7 +84,7 @@ func genSealRoundtrip(h *H) {
 			nr = 10 + h.rng.Intn(30)
 		}
 		s := h.randSealSpec(nr, int(h.rng.Next()))
-		msg := h.rng.Bytes(h.pickLen(i % 20))
+		msg := h.content(h.pickLen(i % 20))
 		h.tag("rcpts:" + strconv.Itoa(nr))
 		h.Run(sealCase(s, [][]byte{msg}, sealRng(h.rng, nr), i%2 == 0))
 	}
